@@ -82,6 +82,14 @@ func (c *engineCtx) resolvePlan(sol nextroute.Solution, fs []string) (int, []str
 			gaps[i+1] = gaps[i]
 		}
 	}
+	// a gap between two stops that must stay direct neighbours is not a legal place
+	// (NewMoveStops does not check other units' direct pairs): such an op is a no-op
+	route := vehicles[v].SolutionStops()
+	for _, g := range gaps {
+		if c.direct[[2]int{route[g-1].ModelStop().Index(), route[g].ModelStop().Index()}] {
+			return 0, nil, false
+		}
+	}
 	args := make([]string, 0, 2*len(order))
 	for i, s := range order {
 		args = append(args, strconv.Itoa(s), strconv.Itoa(gaps[i]))
